@@ -15,6 +15,7 @@ package adapter
 //@ macro paramsAre(a, p) = item_set == store(old(item_set), a.params, true) && item_params == store(old(item_params), a.params, p)
 
 //@ func (a *Adapter) CheckPassthroughPayloadSize(ctx, passthroughPayload) (err)
+//@   swallows GetParams        // documented in the code: missing parameters mean limit 0
 //@   requires[inv]  a != nil && a.logger != nil
 //@   ensures[C18] len(passthroughPayload) > limitOf(a) ==> err != nil
 //@   ensures[C18] len(passthroughPayload) <= limitOf(a) ==> err == nil
